@@ -379,8 +379,8 @@ def write_world(dirpath: Path | str, spec: dict[str, Any]) -> dict[str, Any]:
                 ref_ = np.datetime64(tu_.split("since")[1].strip().replace(" ", "T"), "s")
             tv.units = tu_
             sl = slice(start, start + cnt)
-            abs_t = [(t0 + np.timedelta64(int(o), "s")) for o in offsets[sl]]
-            tv[:] = [float((t - ref_) / np.timedelta64(1, "s")) / div_ for t in abs_t]
+            abs_t = [(t0 + np.timedelta64(int(np.floor(o)), "s")) for o in offsets[sl]]  # whole seconds exactly, the sub-second part (if any) added as a float
+            tv[:] = [(float((t - ref_) / np.timedelta64(1, "s")) + (float(o) - float(np.floor(o)))) / div_ for t, o in zip(abs_t, offsets[sl])]
             for name, arr, dims in (
                 ("u", u[sl], ("ocean_time", "s_rho", "eta_u", "xi_u")),
                 ("v", v[sl], ("ocean_time", "s_rho", "eta_v", "xi_v")),
@@ -410,4 +410,4 @@ def write_world(dirpath: Path | str, spec: dict[str, Any]) -> dict[str, Any]:
         files.append(fname)
         start += cnt
     return dict(dir=d, gridfile=gridfile, files=files, pattern=str(d / f"{prefix}*.nc"), G=G,
-                frame_times=[t0 + np.timedelta64(int(o), "s") for o in offsets])
+                frame_times=[t0 + np.timedelta64(int(np.floor(o)), "s") for o in offsets])
